@@ -1,4 +1,5 @@
-(* C06 model driver.  One history per line:  <sm 0|1>;op;op;...
+(* C06 model driver.  One history per line:  <sm 0|1>[u];op;op;...   (suffix u: the model of the code as found,
+   without fixes/C06-1.patch)
    ops:  U <hex> (user send)  L <hex> (library send, owner STROPHE)  S <hex> (library send, owner SM_STROPHE)
          T t1,t2,.. (write schedule: all k<n> again err)  I (one loop iteration)  DO / DY (drop oldest / youngest)
          QL (queue length)  A <h> (<a h=../> received)  DQ (dump queues)
@@ -23,14 +24,16 @@ let dump st =
 let () = iter_lines (fun line ->
   if line = "" then "" else
   let cmds = String.split_on_char ';' line in
-  let sm = (List.hd cmds = "1") in
+  let h = List.hd cmds in
+  let sm = (String.length h > 0 && h.[0] = '1') in
+  let fx = not (String.length h > 1 && h.[1] = 'u') in
   let st = ref (init sm) in
   let out = Buffer.create 256 in
   let dead = ref false in
   let emit s = Buffer.add_string out s; Buffer.add_char out ' ' in
   let do_step o k =
     if not !dead then
-      match step !st o with
+      match step fx !st o with
       | Ok (st', r) -> st := st'; k r
       | UAF -> dead := true; emit "UAF"
       | Crash -> dead := true; emit "CRASH-MODEL"
